@@ -741,6 +741,46 @@ def C07_sharing_family():
     return True, f"{len(cases)} sharing scenarios agree with JAX"
 
 
+def C06_fori_trip_counts():
+    """fori_loop(lower, upper) for every lower, upper in [-2, 4]: same carried value as JAX (0, 1, k trips, offset index)"""
+    jax, jnp = _jax()
+    x = np.asarray([1.0, 2.0, 3.0], dtype=np.float32)
+    for lo in range(-2, 5):
+        for up in range(-2, 5):
+            def f(x, lo=lo, up=up):
+                return jax.lax.fori_loop(lo, up, lambda i, c: c * 2.0 + i, x)
+            ok, detail = _cmp(f, [(3,)], [x])
+            if not ok:
+                return False, f"fori_loop({lo}, {up}): {detail}"
+    return True, "49 (lower, upper) pairs agree with JAX"
+
+
+def C06_scan_arity_family():
+    """scan_arity on every small split of total_invars in both parameter encodings"""
+    from jax2onnx._compat import jax as jc
+
+    class G(list):
+        pass
+    for total in range(0, 6):
+        for nc in range(0, total + 1):
+            for ny in range(0, total - nc + 1):
+                nx = total - nc - ny
+                want = (nc, ny, nx)
+                got = jc.scan_arity({"num_consts": nc, "num_carry": ny}, total)
+                if tuple(got) != want:
+                    return False, f"scan_arity(num_consts={nc}, num_carry={ny}, total={total}) = {got}, expected {want}"
+                ft = type("FT", (), {"elts": [G(range(nc)), G(range(ny)), G(range(nx))]})()
+                got = jc.scan_arity({"ft_in": ft}, total)
+                if tuple(got) != want:
+                    return False, f"scan_arity(ft_in groups {want}, total={total}) = {got}"
+                try:
+                    jc.scan_arity({"ft_in": ft}, total + 1)
+                    return False, f"scan_arity accepted ft_in groups {want} for {total + 1} invars"
+                except ValueError:
+                    pass
+    return True, "all splits of up to 5 invars decoded consistently"
+
+
 def C05_output_order_family():
     """results (a4d, b4d, c1d, d4d) under every ordered subset of outputs_as_nchw over the 4-D leaves:
     output k must be leaf k (NCHW-transposed iff flagged)."""
@@ -1027,6 +1067,7 @@ ALL = {
     "C05_output_order_family": C05_output_order_family,
     "C04_dimexpr_family": C04_dimexpr_family,
     "C02_table_family": C02_table_family,
+    "C06_fori_trip_counts": C06_fori_trip_counts, "C06_scan_arity_family": C06_scan_arity_family,
     "C07_sharing_family": C07_sharing_family,
     "C03_function_identifiers_unique": C03_function_identifiers_unique,
     "C09_function_body_constants_follow_precision": C09_function_body_constants_follow_precision,
